@@ -128,6 +128,10 @@ def cv_c05(tier):
             t = [a, b, k]
             if 'N' in a + b: t.append('N')
             J.append(('|'.join(t), 2 if len(t) == 3 else 1, 1 if tier == 'quick' else 2))
+    # a timed / cancellable waiter that a signal's reader scan passes over (queue: reader, writer, this waiter)
+    # must still end by itself at its deadline / note (seeded change C05d)
+    for p in ['Wr|Ww|Cwd|@3 S', 'Wr|Cwd|Cwd|@3 S', 'Wr|Ww|Cwe|@3 S', 'Wr|Ww|CwN|@3 S|N', 'Wr|Wr|Crd|@3 S', 'Wr|Ww|Cgd|@3 S']:
+        J.append((p, 1 if tier == 'quick' else 2, 1))
     return J
 
 # ---------------- muwait family ----------------
@@ -219,6 +223,12 @@ def once_programs(tier):
         J.append(('%s|%s|%s' % (a, b, c), 2, 1 if tier == 'quick' else 2))
     for p in ['O|O2', 'O|Os2', 'O O2|O2 O', 'O|O|O2', 'O|Os|O2', 'Oa|Oa2|Os2', 'O|O|O|O', 'O|Os|Oa|Oas', 'O|O2|O|O2']:
         J.append((p, 2 if p.count('|') < 3 else 1, 1))
+    # nested initialisation through the shared slot, and an initialiser that depends on another thread's
+    # call on the slot-sharing object (seeded change C07d: once_mu held across the user function)
+    for p in ['On', 'On|O2', 'On|O', 'On|On', 'On|Os2', 'Ow|O2', 'Ow|Os2', 'Ow|O2 O']:
+        J.append((p, 2 if tier == 'quick' else 4, 1))
+    for p in ['On|Os2|O', 'Ow|O2|O', 'On|On|O2']:
+        J.append((p, 1 if tier == 'quick' else 2, 1))
     if tier == 'thorough':
         for a, b, c in itertools.combinations_with_replacement(kinds, 3):
             J.append(('%s|%s|%s' % (a, b, c), 3, 2))
